@@ -62,9 +62,11 @@ CONSTANTS Family,            \* "C16q" | "C16t" : which input families Init rang
                              \* "max" (a later IdP end lengthens it)
           CookieAgeOverridesExp, \* CookieSessionProvider.CreateSession rewrites the token's exp to
                              \* iat + the PROVIDER's (cookie) MaxAge when that is positive   (FALSE in the code)
-          PreflightBypass    \* Middleware.RequireAccount hands a request shaped like a CORS preflight (method
+          PreflightBypass,   \* Middleware.RequireAccount hands a request shaped like a CORS preflight (method
                              \* OPTIONS + Access-Control-Request-Method) to the wrapped handler without looking
                              \* for a session                                                (FALSE in the code)
+          SubjectFromUid     \* JWTSessionCodec.New fills a subject the assertion does not state from the first
+                             \* value of the claim named "uid"                              (FALSE in the code)
 \* The three switches are TRUE in every registered configuration.  Setting one to
 \* FALSE is the design-level counterpart of the code mutants C16 must catch: TLC then
 \* reports OnlyMintedSessionTokensAuthenticate (resp. TrackerRefusesSessionTokens) violated.
@@ -84,6 +86,12 @@ CONSTANTS Family,            \* "C16q" | "C16t" : which input families Init rang
 \* same name, the design-level counterpart of a code change C16 must catch ("let the application answer
 \* preflights"): TLC reports OnlyMintedSessionTokensAuthenticate violated (family "shape",
 \* SessionToken_C16shape.cfg - a registered refutation phase).
+
+\* SubjectFromUid is FALSE in every registered configuration that emits vectors (the subject is the
+\* assertion's NameID value and nothing else).  TRUE is the named deviation of the same name, the
+\* design-level counterpart of a code change C16 must catch ("some IdPs release the login name only as
+\* an attribute"): TLC reports ExposesExactlyTheAssertion violated (family "subj",
+\* SessionToken_C16subj.cfg - a registered refutation phase).
 
 Absent  == -999999999      \* a time claim that is not in the token (StandardClaims: 0 = unset)
 Far     == 100000          \* "far" in seconds; larger than every lifetime used
@@ -282,11 +290,13 @@ TokCases ==
                           \cup OnM(FourCfgs, RequestShapes)
     \* only the request shapes (the refutation of the deviation PreflightBypass)
     [] Family = "shape" -> OnM(DiagCfgs, RequestShapes)
+    [] Family = "subj" -> {}
 
 ----------------------------------------------------------------------------
 (* assertions (part "map") *)
 \* attribute = [fn (FriendlyName, "" = none), name, vals]; names and values are symbols that the
-\* harness replaces by concrete strings; "SI" stands for the literal name "SessionIndex".
+\* harness replaces by concrete strings; "SI" stands for the literal name "SessionIndex", "UID" for
+\* the literal name "uid" (N1, N2, F1 are then names other than "uid").
 Attr(fn, n, v) == [fn |-> fn, name |-> n, vals |-> v]
 ValSeqs == { <<>>, <<"a">>, <<"b", "a">>, <<"a", "a">> }
 AttrDom == { Attr(fn, n, v) : fn \in {"", "F1", "N1"}, n \in {"N1", "N2"}, v \in ValSeqs }
@@ -302,12 +312,34 @@ SubjAuthn == { Assn(s, st, au) : s \in {"nameid", "noNameID", "noSubject"},
                  st \in { <<>>, << <<Attr("", "N1", <<"a">>)>> >>, << <<Attr("", "SI", <<"a">>)>> >>, << <<Attr("SI", "N1", <<"b">>)>> >> },
                  au \in { <<>>, <<"s1">>, <<"s1", "s2">>, <<"">> } }
 
-MapInputs == CASE Family = "C16q" -> { Assn("nameid", st, <<"s1">>) : st \in StmtsUpTo2 } \cup SubjAuthn
-               [] Family = "C16t" -> { Assn("nameid", st, <<"s1">>) : st \in StmtsUpTo2 \cup Stmts3 } \cup SubjAuthn
+\* The SUBJECT dimension crossed with what the attributes say about a login name.  subject:
+\*   nameid (Subject with a NameID of non-empty value) | noSubject (no Subject element) |
+\*   noNameID (Subject without NameID) | emptyNameID (Subject whose NameID has the value "").
+\* attribute sets: none; none named uid; uid by FriendlyName, one- / two- / no-valued; uid by Name
+\* (no FriendlyName), one- / two-valued; Name uid under another FriendlyName (the claim is then not
+\* called uid); uid as the second attribute; uid in the second statement; uid by FriendlyName AND by Name.
+UidStmts == { <<>>,
+              << <<Attr("", "N1", <<"a">>)>> >>,
+              << <<Attr("UID", "N1", <<"a">>)>> >>,
+              << <<Attr("UID", "N1", <<"b", "a">>)>> >>,
+              << <<Attr("UID", "N1", <<>>)>> >>,
+              << <<Attr("", "UID", <<"a">>)>> >>,
+              << <<Attr("", "UID", <<"b", "a">>)>> >>,
+              << <<Attr("F1", "UID", <<"a">>)>> >>,
+              << <<Attr("", "N1", <<"b">>), Attr("UID", "N2", <<"a">>)>> >>,
+              << <<Attr("", "N1", <<"b">>)>>, <<Attr("", "UID", <<"a">>)>> >>,
+              << <<Attr("UID", "UID", <<"a">>)>> >> }
+Subjects == {"nameid", "noSubject", "noNameID", "emptyNameID"}
+SubjUid  == { Assn(s, st, <<"s1">>) : s \in Subjects, st \in UidStmts }
+
+MapInputs == CASE Family = "C16q" -> { Assn("nameid", st, <<"s1">>) : st \in StmtsUpTo2 } \cup SubjAuthn \cup SubjUid
+               [] Family = "C16t" -> { Assn("nameid", st, <<"s1">>) : st \in StmtsUpTo2 \cup Stmts3 } \cup SubjAuthn \cup SubjUid
                [] Family = "shape" -> {}
+               \* only the subject dimension (the refutation of the deviation SubjectFromUid)
+               [] Family = "subj" -> SubjUid
 MapCases == { <<c, a>> : c \in DiagCfgs, a \in MapInputs }
 
-Keys == {"F1", "N1", "N2", "SI"}
+Keys == {"F1", "N1", "N2", "SI", "UID"}
 
 ----------------------------------------------------------------------------
 (* assertions with IdP-stated ends (part "life") *)
@@ -340,7 +372,7 @@ LifeSelEq(full, a, cd, sc) == IF full THEN TRUE
 LifeSel(c, a, cd, sc) == IF c.cookieAge = "equal" THEN LifeSelEq(Family = "C16t" /\ c \in DiagCfgs, a, cd, sc)
                          ELSE IF Family = "C16t" /\ DiagBase(c) THEN LifeSelEq(FALSE, a, cd, sc)
                          ELSE a \in AuthnFew /\ << cd, sc >> \in { <<"none", "none">>, <<"beyond", "beyond">> }
-LifeCfgs == IF Family = "shape" THEN {} ELSE (IF Family = "C16q" THEN DiagCfgs ELSE FourCfgs) \cup CookieCfgs
+LifeCfgs == IF Family \in {"shape", "subj"} THEN {} ELSE (IF Family = "C16q" THEN DiagCfgs ELSE FourCfgs) \cup CookieCfgs
 
 ----------------------------------------------------------------------------
 Init == /\ \/ /\ part = "token" /\ (\E p \in TokCases : cfg = p[1] /\ in = p[2])
@@ -481,21 +513,25 @@ MintTimes == /\ pc = <<"map", "Times">>
              /\ pc' = <<"map", "Subject">>
              /\ UNCHANGED <<part, cfg, in, res, err, out, subj, claims, si, ai, ni>>
 
-\* :44-48 subject only when Subject and NameID are present
+\* :44-48 subject = NameID value, only when Subject and NameID are present (an empty NameID value gives "")
 MapSubject == /\ pc = <<"map", "Subject">>
               /\ subj' = IF in.subject = "nameid" THEN "S" ELSE ""
               /\ pc' = <<"map", "Attr">>
               /\ UNCHANGED <<part, cfg, in, res, err, out, claims, si, ai, ni, mt, ident>>
 
-\* :52-62 statements in order, attributes in order, values appended to the claim named KeyOf
+\* :52-62 statements in order, attributes in order, values appended to the claim named KeyOf.
+\* The subject is not touched again: no attribute, whatever its name, becomes the subject.
+\* Named deviation SubjectFromUid (FALSE in the code): once the attributes are mapped, a subject that is
+\* still "" is filled with Attributes.Get("uid") - the first value of the claim "uid", "" when it has none.
+UidFallback(s) == IF SubjectFromUid /\ s = "" /\ claims["UID"] # <<>> THEN claims["UID"][1] ELSE s
 MapAttr == /\ pc = <<"map", "Attr">>
            /\ IF si > Len(in.stmts)
-                THEN pc' = <<"map", "SessionIndex">> /\ UNCHANGED <<claims, si, ai>>
+                THEN pc' = <<"map", "SessionIndex">> /\ subj' = UidFallback(subj) /\ UNCHANGED <<claims, si, ai>>
                 ELSE IF ai > Len(in.stmts[si])
-                       THEN si' = si + 1 /\ ai' = 1 /\ UNCHANGED <<claims, pc>>
+                       THEN si' = si + 1 /\ ai' = 1 /\ UNCHANGED <<claims, pc, subj>>
                        ELSE /\ claims' = [claims EXCEPT ![KeyOf(in.stmts[si][ai])] = @ \o in.stmts[si][ai].vals]
-                            /\ ai' = ai + 1 /\ UNCHANGED <<si, pc>>
-           /\ UNCHANGED <<part, cfg, in, res, err, out, subj, ni, mt, ident>>
+                            /\ ai' = ai + 1 /\ UNCHANGED <<si, pc, subj>>
+           /\ UNCHANGED <<part, cfg, in, res, err, out, ni, mt, ident>>
 
 \* :65-68 one SessionIndex value per AuthnStatement, appended to the claim "SessionIndex".
 \* Named deviation IgnoresIdPSessionEnd (SessionEndRule = "ignore"): the statement's
@@ -612,9 +648,13 @@ Cat(as)    == IF as = <<>> THEN <<>> ELSE Head(as).vals \o Cat(Tail(as))
 Flat == FlatOf(in.stmts)
 Named(k) == SelectSeq(Flat, LAMBDA a : KeyOf(a) = k)
 ExpectedVals(k) == Cat(Named(k)) \o (IF k = "SI" THEN in.authn ELSE <<>>)
+\* the subject of the assertion is the value of its NameID - "S" (a non-empty string the harness
+\* chooses) when it states one, "" when it has no Subject, no NameID or an empty one - WHATEVER the
+\* attributes hold: an attribute is an attribute of the session, never its subject
+AssertedSubject == IF in.subject = "nameid" THEN "S" ELSE ""
 ExposesExactlyTheAssertion ==
   Done /\ part = "map" => /\ Ran /\ \A k \in Keys : claims[k] = ExpectedVals(k)
-                          /\ subj = IF in.subject = "nameid" THEN "S" ELSE ""
+                          /\ subj = AssertedSubject
 \* "no longer ago than the session lifetime": the session ends, at the latest, one lifetime after
 \* this SP's codec issued the token.  The session lifetime is the one configured for the session
 \* codec (JWTSessionCodec.MaxAge = cfg.life), whatever Max-Age the cookie provider gives the cookie
